@@ -36,6 +36,9 @@ type AppDB struct {
 	WG sync.WaitGroup
 	mu sync.Mutex
 
+	// batch collects the records of one committed block, see StartBatch
+	batch db.Batch
+
 	store   tree.MTree
 	stateDB db.DB
 
@@ -60,6 +63,32 @@ func (appDB *AppDB) Close() error {
 		return err
 	}
 	return nil
+}
+
+// set stores a record, through the open batch if there is one
+func (appDB *AppDB) set(key, value []byte) error {
+	if appDB.batch != nil {
+		return appDB.batch.Set(key, value)
+	}
+	return appDB.db.Set(key, value)
+}
+
+// StartBatch makes the following Set*/Save*/Flush* calls part of one atomic write, performed by WriteBatch.
+// The records of a block (hash, height, validators, block times, versions, emission, price) must reach the disk
+// together: Tendermint does not deliver a block again once the stored height says it is committed.
+func (appDB *AppDB) StartBatch() {
+	appDB.WG.Wait()
+	appDB.batch = appDB.db.NewBatch()
+}
+
+// WriteBatch atomically writes the records collected since StartBatch, panics on error
+func (appDB *AppDB) WriteBatch() {
+	batch := appDB.batch
+	appDB.batch = nil
+	defer batch.Close()
+	if err := batch.Write(); err != nil {
+		panic(err)
+	}
 }
 
 // GetLastBlockHash returns latest block hash stored on disk
@@ -87,7 +116,7 @@ func (appDB *AppDB) GetLastBlockHash() []byte {
 func (appDB *AppDB) SetLastBlockHash(hash []byte) {
 	appDB.WG.Wait()
 
-	if err := appDB.db.Set([]byte(hashPath), hash); err != nil {
+	if err := appDB.set([]byte(hashPath), hash); err != nil {
 		panic(err)
 	}
 }
@@ -122,7 +151,7 @@ func (appDB *AppDB) SetLastHeight(height uint64) {
 
 	appDB.WG.Wait()
 
-	if err := appDB.db.Set([]byte(heightPath), h); err != nil {
+	if err := appDB.set([]byte(heightPath), h); err != nil {
 		panic(err)
 	}
 
@@ -141,7 +170,7 @@ func (appDB *AppDB) SaveStartHeight() {
 
 	appDB.WG.Wait()
 
-	if err := appDB.db.Set([]byte(startHeightPath), h); err != nil {
+	if err := appDB.set([]byte(startHeightPath), h); err != nil {
 		panic(err)
 	}
 }
@@ -217,7 +246,7 @@ func (appDB *AppDB) FlushValidators() {
 
 	appDB.WG.Wait()
 
-	if err := appDB.db.Set([]byte(validatorsPath), data); err != nil {
+	if err := appDB.set([]byte(validatorsPath), data); err != nil {
 		panic(err)
 	}
 	appDB.validators = nil
@@ -297,7 +326,7 @@ func (appDB *AppDB) SaveBlocksTime() {
 
 	appDB.WG.Wait()
 
-	if err := appDB.db.Set([]byte(blocksTimePath), data); err != nil {
+	if err := appDB.set([]byte(blocksTimePath), data); err != nil {
 		panic(err)
 	}
 }
@@ -378,7 +407,7 @@ func (appDB *AppDB) SaveVersions() {
 
 	appDB.WG.Wait()
 
-	if err := appDB.db.Set([]byte(versionsPath), data); err != nil {
+	if err := appDB.set([]byte(versionsPath), data); err != nil {
 		panic(err)
 	}
 
@@ -421,7 +450,7 @@ func (appDB *AppDB) SaveEmission() {
 	}
 
 	appDB.WG.Wait()
-	if err := appDB.db.Set([]byte(emissionPath), appDB.emission.Bytes()); err != nil {
+	if err := appDB.set([]byte(emissionPath), appDB.emission.Bytes()); err != nil {
 		panic(err)
 	}
 	appDB.isDirtyEmission = false
@@ -567,7 +596,7 @@ func (appDB *AppDB) SavePrice() {
 		panic(err)
 	}
 
-	err = appDB.db.Set([]byte(pricePath), bytes)
+	err = appDB.set([]byte(pricePath), bytes)
 	if err != nil {
 		panic(err)
 	}
